@@ -189,8 +189,12 @@ func (fx *FuncVC) decodeRune(s StrV, guard T) (T, T) {
 		Implies(Lt(IntC(1), w, true), Le(IntC(0x80), b0, true)),
 		Implies(Le(IntC(0x10000), r, true), Eq(w, IntC(4))),
 		Implies(Eq(w, IntC(1)), Or(Lt(r, IntC(0x80), true), Eq(r, IntC(0xFFFD)))),
+		// the continuation bytes of a multi-byte encoding are 0x80..0xBF
+		Implies(Le(IntC(2), w, true), Le(IntC(0x80), Select(Select(fx.strHeap(), s.Base), Add(s.Off, IntC(1))), true)),
+		Implies(Le(IntC(3), w, true), Le(IntC(0x80), Select(Select(fx.strHeap(), s.Base), Add(s.Off, IntC(2))), true)),
+		Implies(Le(IntC(4), w, true), Le(IntC(0x80), Select(Select(fx.strHeap(), s.Base), Add(s.Off, IntC(3))), true)),
 	)))
-	fx.trusted["utf8 decoding (range over string): 1<=w<=4, ASCII byte decodes to itself with w=1, non-ASCII lead byte gives r>=0x80, r>=0x10000 has w=4, w=1 is ASCII or U+FFFD"] = true
+	fx.trusted["utf8 decoding (range over string): 1<=w<=4, ASCII byte decodes to itself with w=1, non-ASCII lead byte gives r>=0x80, r>=0x10000 has w=4, w=1 is ASCII or U+FFFD, every byte of a multi-byte encoding is >=0x80"] = true
 	_ = fmt.Sprint
 	return r, w
 }
